@@ -280,6 +280,150 @@ theorem init_wellformed (isC : Bytes → Bool) (pre post cs : List Box) (psshs :
         simp only [PsshSpec.bytes, encodePssh, List.length_append, be32_length] at this
         omega
 
+/-! ### what a manifest hands on to its init / media URLs -/
+
+theorem mem_normLocs (locs : List Loc) (l : Loc) : (normLocs locs).contains l = locs.contains l := by
+  cases l <;> simp [normLocs, Loc.all, List.filter] <;> (repeat' split) <;> simp_all
+
+theorem normLocs_full (locs : List Loc) (h : isFull locs = true) : normLocs locs = Loc.all := by
+  simp only [isFull, Loc.all, List.all_cons, List.all_nil, Bool.and_true, Bool.and_eq_true] at h
+  have h1 : Loc.cenc ∈ locs := by simpa using h.1
+  have h2 : Loc.moov ∈ locs := by simpa using h.2.1
+  have h3 : Loc.pro ∈ locs := by simpa using h.2.2
+  simp [normLocs, Loc.all, List.filter, h1, h2, h3]
+
+/-- the entry that counts for a system, after the selection went through the serialiser -/
+theorem lookupLast_map (sel : Selection) (f : List Loc → List Loc) (s : Sys) :
+    lookupLast (sel.map fun e => (e.1, f e.2)) s = (lookupLast sel s).map f := by
+  unfold lookupLast
+  rw [← List.map_reverse, List.find?_map]
+  have : ((fun x : Sys × List Loc => x.1 == s) ∘ fun e : Sys × List Loc => (e.1, f e.2))
+      = (fun x : Sys × List Loc => x.1 == s) := rfl
+  rw [this]
+  cases sel.reverse.find? (fun x => x.1 == s) <;> rfl
+
+/-- location lists that select the same locations -/
+def SameLocs (a b : List Loc) : Prop := ∀ l, a.contains l = b.contains l
+
+/-- both absent, or both present with the same locations -/
+def sameEntry : Option (List Loc) → Option (List Loc) → Prop
+  | some a, some b => SameLocs a b
+  | none, none => True
+  | _, _ => False
+
+/-- **selection_print_parse** – what a manifest writes into its init / media URLs
+(`_drm_selection_to_string`) is read back (`_drm_selection_from_string`) as a selection in
+which every system has the entry that counted before, with the same locations – for every
+selection: any number of systems in any order, equal or differing location sets, repeats. -/
+theorem selection_print_parse (sel : Selection) (s : Sys) :
+    sameEntry (lookupLast sel s) (lookupLast (readPrinted (printSelection sel)) s) := by
+  have hnorm : ∀ locs, (if isFull locs then Loc.all else normLocs locs) = normLocs locs := by
+    intro locs; split
+    · rename_i h; exact (normLocs_full locs h).symm
+    · rfl
+  unfold printSelection
+  simp only
+  by_cases hall : ((sel.map fun (x : Sys × List Loc) =>
+        if isFull x.2 then ((x.1, none) : Item) else (x.1, some (normLocs x.2))).all (·.2.isNone)
+      && Sys.all.all (fun s' => (sel.map fun (x : Sys × List Loc) =>
+        if isFull x.2 then ((x.1, none) : Item) else (x.1, some (normLocs x.2))).any (·.1 == s'))) = true
+  · -- `all`: every entry is a bare name and every system occurs
+    rw [if_pos hall]
+    simp only [Bool.and_eq_true, List.all_eq_true, List.any_eq_true, List.mem_map] at hall
+    obtain ⟨hbare, hnames⟩ := hall
+    have hs : s ∈ Sys.all := by cases s <;> simp [Sys.all]
+    obtain ⟨it, ⟨e, he, rfl⟩, hname⟩ := hnames s hs
+    have hfull : ∀ e ∈ sel, isFull e.2 = true := by
+      intro e he
+      have := hbare _ ⟨e, he, rfl⟩
+      by_cases hf : isFull e.2 = true
+      · exact hf
+      · simp [hf] at this
+    have hr : lookupLast (readPrinted .all) s = some Loc.all := by
+      cases s <;> decide
+    rw [hr]
+    cases hl : lookupLast sel s with
+    | none =>
+      exfalso
+      -- impossible: s occurs in sel
+      unfold lookupLast at hl
+      simp only [Option.map_eq_none_iff, List.find?_eq_none, List.mem_reverse] at hl
+      have hes : e.1 = s := by
+        by_cases hf : isFull e.2 = true <;> simpa [hf] using hname
+      exact absurd (by simpa using hes) (hl e he)
+    | some a =>
+      have ha : ∃ e ∈ sel, e.2 = a := by
+        unfold lookupLast at hl
+        cases hf : sel.reverse.find? (·.1 == s) with
+        | none => simp [hf] at hl
+        | some x =>
+          simp only [hf, Option.map_some, Option.some.injEq] at hl
+          exact ⟨x, by simpa using List.mem_of_find?_eq_some hf, hl⟩
+      obtain ⟨x, hx, rfl⟩ := ha
+      show SameLocs x.2 Loc.all
+      intro l
+      have := hfull x hx
+      simp only [isFull, Loc.all, List.all_cons, List.all_nil, Bool.and_true, Bool.and_eq_true] at this
+      cases l
+      · rw [this.1]; rfl
+      · rw [this.2.1]; rfl
+      · rw [this.2.2]; rfl
+  · -- item list: each entry goes through unchanged up to the order of its locations
+    rw [if_neg hall]
+    have hread : readPrinted (.items (sel.map fun (x : Sys × List Loc) =>
+          if isFull x.2 then ((x.1, none) : Item) else (x.1, some (normLocs x.2))))
+        = sel.map fun e => (e.1, normLocs e.2) := by
+      simp only [readPrinted, List.map_map]
+      apply List.map_congr_left
+      intro e _
+      by_cases hf : isFull e.2 = true
+      · simp [hf, normLocs_full e.2 hf]
+      · simp [hf]
+    rw [hread, lookupLast_map]
+    cases lookupLast sel s with
+    | none => trivial
+    | some a => show SameLocs a (normLocs a); intro l; exact (mem_normLocs a l).symm
+
+
+theorem hooksOf_sameLocs (version : Option Nat) (aes : Bool) (n : Nat) (s : Sys) (a b : List Loc)
+    (h : SameLocs a b) : hooksOf version aes n s a = hooksOf version aes n s b := by
+  have h1 := h Loc.cenc
+  have h2 := h Loc.moov
+  have h3 := h Loc.pro
+  cases s <;> simp only [hooksOf, ClearKey.clearkeyHooks, ClearKey.marlinHooks, playreadyHooks, h1, h2, h3]
+
+/-- **init_handed_on** – the init segment requested through the URL a manifest advertises (its
+`drm` value is the serialised selection) gets the same protection boxes as one requested with
+the selection the manifest itself was asked with. -/
+theorem init_handed_on (encrypted : Bool) (version : Option Nat) (aes : Bool) (sel : Selection)
+    (kids : List Bytes) (pro : Bytes) :
+    initPsshs encrypted version aes (readPrinted (printSelection sel)) kids pro
+      = initPsshs encrypted version aes sel kids pro := by
+  have hctx : contexts version aes kids.length (readPrinted (printSelection sel))
+      = contexts version aes kids.length sel := by
+    have hx : ∀ s, (lookupLast (readPrinted (printSelection sel)) s).map
+          (fun locs => (s, hooksOf version aes kids.length s locs))
+        = (lookupLast sel s).map (fun locs => (s, hooksOf version aes kids.length s locs)) := by
+      intro s
+      have h := selection_print_parse sel s
+      cases ha : lookupLast sel s <;> cases hb : lookupLast (readPrinted (printSelection sel)) s <;>
+        simp only [ha, hb, sameEntry] at h ⊢
+      simp only [Option.map_some, Option.some.injEq, Prod.mk.injEq, true_and]
+      exact (hooksOf_sameLocs version aes kids.length s _ _ h).symm
+    simp only [contexts, Sys.all, List.filterMap_cons, List.filterMap_nil, hx]
+  unfold initPsshs
+  rw [hctx]
+
+/-- heterogeneous location sets are written item by item, never collapsed; three bare names
+are written `all`; and either form is read back with the locations that counted -/
+example :
+    printSelection [(.playready, [.cenc]), (.clearkey, [.moov]), (.marlin, Loc.all)]
+      = .items [(.playready, some [.cenc]), (.clearkey, some [.moov]), (.marlin, none)] ∧
+    printSelection [(.playready, [.pro, .cenc, .moov]), (.marlin, Loc.all), (.clearkey, Loc.all)] = .all ∧
+    (initPsshs true none true (readPrinted (printSelection
+        [(.playready, [.cenc]), (.clearkey, [.moov]), (.marlin, Loc.all)])) [exKidPlaceholder] []).map (·.sys)
+      = [ClearKey.psshSystemId] := by decide
+
 /-! ### history independence -/
 
 /-- **init_history_independent** – whatever was served before (init segments, manifests of
